@@ -131,9 +131,13 @@ def insertAt : List Node → Nat → Key → Node → Bool × List Node
   | c :: cs, i + 1, rest, value => let r := insertAt cs i rest value; (r.1, c :: r.2)
 end
 
+def isNil : Node → Bool
+  | .nil => true
+  | _ => false
+
 /-- the loop in `delete`: `some pos` iff exactly one slot is non-nil. -/
 def soleChild (cs : List Node) : Option Nat :=
-  let idx := (List.range cs.length).filter (fun i => cs.getD i .nil != .nil)
+  let idx := (List.range cs.length).filter (fun i => !isNil (cs.getD i .nil))
   match idx with
   | [p] => some p
   | _ => none
